@@ -132,6 +132,11 @@ def _worker(args):
 
 def _child(conn, modname, job):
     try:
+        import faulthandler
+        faulthandler.register(signal.SIGUSR1, all_threads=True)
+    except Exception:   # noqa
+        pass
+    try:
         res = _worker((modname, job))
     except BaseException as ex:   # noqa
         res = {'job': job, 'error': f"{type(ex).__name__}: {ex}"}
